@@ -53,3 +53,26 @@ pub assume_specification<T>[<[T]>::swap](s: &mut [T], a: usize, b: usize)
     requires a < old(s)@.len(), b < old(s)@.len()
     ensures final(s)@ == old(s)@.update(a as int, old(s)@[b as int]).update(b as int, old(s)@[a as int]);
 pub assume_specification<T>[bool::then_some](b: bool, t: T) -> (r: Option<T>) ensures r == (if b { Some(t) } else { None::<T> });
+// more std functions an idiomatic rewrite may reach for (ASSUMED; doubles stay uninterpreted)
+pub assume_specification<T: Ord>[std::cmp::max::<T>](a: T, b: T) -> (r: T) ensures r == a || r == b;
+pub assume_specification<T: Ord>[std::cmp::min::<T>](a: T, b: T) -> (r: T) ensures r == a || r == b;
+pub assume_specification[i64::abs](x: i64) -> (r: i64) requires x > i64::MIN ensures r == (if x < 0 { -x } else { x as int });
+pub assume_specification[i64::wrapping_neg](x: i64) -> (r: i64) ensures r == (if x == i64::MIN { i64::MIN as int } else { -x });
+pub assume_specification[i64::rem_euclid](x: i64, y: i64) -> (r: i64) requires y != 0, !(x == i64::MIN && y == -1) ensures r == x as int % y as int;
+pub assume_specification[i64::div_euclid](x: i64, y: i64) -> (r: i64) requires y != 0, !(x == i64::MIN && y == -1) ensures r == x as int / y as int;
+pub assume_specification[i64::overflowing_add](x: i64, y: i64) -> (r: (i64, bool)) ensures r.1 == !(i64::MIN <= x + y <= i64::MAX), !r.1 ==> r.0 == x + y;
+pub assume_specification[i64::saturating_mul](x: i64, y: i64) -> (r: i64)
+    ensures r == (if x * y > i64::MAX { i64::MAX as int } else if x * y < i64::MIN { i64::MIN as int } else { x * y });
+pub assume_specification[u64::abs_diff](x: u64, y: u64) -> (r: u64) ensures r == (if x >= y { x - y } else { y - x });
+pub assume_specification<T, U>[Option::<T>::zip](a: Option<T>, b: Option<U>) -> (r: Option<(T, U)>)
+    ensures r == (match (a, b) { (Some(x), Some(y)) => Some((x, y)), _ => None::<(T, U)> });
+pub assume_specification<T: Copy>[Option::<&T>::copied](a: Option<&T>) -> (r: Option<T>)
+    ensures r == (match a { Some(x) => Some(*x), None => None::<T> });
+pub uninterp spec fn f64_is_nan(f: f64) -> bool;
+pub uninterp spec fn f64_is_finite(f: f64) -> bool;
+pub uninterp spec fn f64_abs(f: f64) -> f64;
+pub uninterp spec fn f64_trunc(f: f64) -> f64;
+pub assume_specification[f64::is_nan](f: f64) -> (r: bool) ensures r == f64_is_nan(f);
+pub assume_specification[f64::is_finite](f: f64) -> (r: bool) ensures r == f64_is_finite(f);
+pub assume_specification[f64::abs](f: f64) -> (r: f64) ensures r == f64_abs(f);
+pub assume_specification[f64::trunc](f: f64) -> (r: f64) ensures r == f64_trunc(f);
